@@ -901,6 +901,16 @@ func (fx *FnCtx) evalCall(env *Env, x *SCall) SV {
 			id = a.V.L[0]
 		}
 		return boolSV(And(tc.IdxLe(env.preNAlloc, id), tc.IdxLt(id, env.st.NAlloc)))
+	case "at":
+		// at(s, k): element at absolute index k of the backing array of slice s (s[i] is at(s, s.off+i)).
+		// Quantifying over the absolute index keeps the bound variable bare inside the array read.
+		a := fx.evalSpec(env, x.Args[0])
+		k := fx.evalIdx(env, x.Args[1])
+		sl, ok := a.V.T.Underlying().(*types.Slice)
+		if !ok {
+			fx.specFail(x, "at() needs a slice")
+		}
+		return SV{V: fx.readElem(env.st, sl.Elem(), a.V.L[0], k)}
 	case "sameArray":
 		a := fx.evalSpec(env, x.Args[0])
 		b := fx.evalSpec(env, x.Args[1])
